@@ -2174,10 +2174,10 @@ def merge_val(g, a, b, P=None, tid=None):
         if a.eq(b):
             return a
         return z3.If(g, a, b)
-    if ta is tuple and tb is tuple and len(a) == 2 and len(b) == 2 and a[0] == 'iterpos' and b[0] == 'iterpos':
+    if ta is tuple and tb is tuple and len(a) == 2 and len(b) == 2 and isinstance(a[0], str) and isinstance(b[0], str) and a[0] == 'iterpos' and b[0] == 'iterpos':
         # iterator positions of paths that left the loop at different points: the iterator is dead afterwards
         return a if a[1] == b[1] else ('iterpos', None)
-    if ta is tuple and tb is tuple and len(a) == 2 and len(b) == 2 and a[0] == 'map' and b[0] == 'map':
+    if ta is tuple and tb is tuple and len(a) == 2 and len(b) == 2 and isinstance(a[0], str) and isinstance(b[0], str) and a[0] == 'map' and b[0] == 'map':
         ea, eb = list(a[1]), list(b[1])
         # common prefix of keys is kept aligned; entries only one side has are absent on the other
         out = []
